@@ -173,6 +173,9 @@ fn objectives() -> Vec<Option<FnRep>> {
         Some(FnRep::Lin { terms: vec![(1, 1.0)], c: -0.5 }),
         Some(FnRep::Quad { entries: vec![(2, 1, 1.0)], lin: Some((vec![(1, 2.0)], 0.0)) }),
         Some(FnRep::Poly { terms: vec![(vec![1, 2, 1], -0.5), (vec![], 1.0)] }),
+        // representation quirks: split constant, explicit zeros, degree 0 with several constant monomials
+        Some(FnRep::Poly { terms: vec![(vec![], 2.0), (vec![1], 1.0), (vec![], -0.5), (vec![2, 1], 0.0)] }),
+        Some(FnRep::Poly { terms: vec![(vec![], 1.0), (vec![], 2.0)] }),
     ]
 }
 
